@@ -8,6 +8,7 @@ import (
 	"path/filepath"
 	"strconv"
 	"strings"
+	"sync"
 	"sync/atomic"
 	"time"
 
@@ -131,23 +132,36 @@ type checkStats struct {
 // world is what the harness knows about the histories of a case: every replication id used, the
 // snapshots (offset,size) that exist anywhere under each id and the lowest log offset ever fed under it.
 // All data of one id are pieces of one PRF history, so whatever a cache declares under an id must lie
-// inside these.
-type snapRef struct{ Left, Size int64 }
+// inside these.  After a source fail-over (+CONTINUE <new id>) the new id's history IS the old id's
+// up to the switch offset and PRF(new) from there on; the old id's history ends at the switch offset
+// (a byte filed under the old id beyond it can only mismatch).
+type snapRef struct {
+	Left, Size int64
+	KeyID      string // the id the snapshot was taken under (its bytes are rdbBytes(KeyID, Left, Size))
+}
+
+type span struct {
+	from int64  // offsets >= from ...
+	id   string // ... carry PRF(aof|id, offset)
+}
 
 type world struct {
-	ids     []string
-	snaps   map[string][]snapRef
-	minLeft map[string]int64
+	mu       sync.RWMutex
+	ids      []string
+	snaps    map[string][]snapRef
+	minLeft  map[string]int64
+	spans    map[string][]span // per id, ascending from; absent = the id's own PRF everywhere
+	nameEnds map[string]nameEnd
 }
 
 func newWorld(ids []string, hs ...hist) *world {
-	w := &world{ids: ids, snaps: map[string][]snapRef{}, minLeft: map[string]int64{}}
+	w := &world{ids: ids, snaps: map[string][]snapRef{}, minLeft: map[string]int64{}, spans: map[string][]span{}}
 	for _, h := range hs {
-		if h.ID == "" {
+		if h.ID == "" || h.Continues {
 			continue
 		}
 		if h.RdbSize > 0 {
-			w.snaps[h.ID] = append(w.snaps[h.ID], snapRef{h.RdbLeft, h.RdbSize})
+			w.snaps[h.ID] = append(w.snaps[h.ID], snapRef{h.RdbLeft, h.RdbSize, h.ID})
 		}
 		if m, ok := w.minLeft[h.ID]; !ok || h.LogLeft < m {
 			w.minLeft[h.ID] = h.LogLeft
@@ -156,13 +170,130 @@ func newWorld(ids []string, hs ...hist) *world {
 	return w
 }
 
-func (w *world) hasSnap(id string, left, size int64) bool {
-	for _, x := range w.snaps[id] {
-		if x.Left == left && x.Size == size {
-			return true
+// continuation records a fail-over: newID continues oldID's history at offset at.
+//
+// Why the LABEL alone is not judged after a continuation: +CONTINUE <new id> does not start a second
+// history, it renames one (PSYNC2: the old id stays valid up to the switch offset).  The leader itself
+// keeps both parts under one id (SetRunId(new) relabels its whole cache, the bytes below the switch are
+// the old id's).  A follower whose stream was opened before the switch and simply carries on stores the
+// same bytes, contiguous, at the same offsets as the leader, under the label it opened the stream with;
+// it learns the new label at its next handshake.  That is "the leader's cached stream at the same
+// offsets".  So both labels stand for the ONE joined history (bytes are compared piecewise against
+// it, contiguity and equality with the leader's cache as everywhere), and what remains forbidden is:
+// bytes that are not the joined history's at their offsets (unrelated id, gap, shift, overlap), and a
+// cache that lies entirely beyond the switch offset under the OLD label — the old id never named any of
+// those offsets, so such a cache can only come from a request with the old id that was granted after the
+// switch and answered from a newer position (the follower should have been turned away to re-handshake).
+func (w *world) continuation(newID, oldID string, at int64) {
+	w.mu.Lock()
+	defer w.mu.Unlock()
+	sp := append([]span(nil), w.spans[oldID]...)
+	if len(sp) == 0 {
+		sp = []span{{from: -1 << 62, id: oldID}}
+	}
+	joined := append(sp, span{from: at, id: newID})
+	w.spans[newID], w.spans[oldID] = joined, joined
+	all := append(append([]snapRef(nil), w.snaps[oldID]...), w.snaps[newID]...)
+	w.snaps[newID], w.snaps[oldID] = all, all
+	if m, ok := w.minLeft[oldID]; ok {
+		w.minLeft[newID] = m
+	}
+	if w.nameEnds == nil {
+		w.nameEnds = map[string]nameEnd{}
+	}
+	w.nameEnds[oldID] = nameEnd{at: at, next: newID}
+}
+
+type nameEnd struct {
+	at   int64  // the source used this id up to (not including) offset at ...
+	next string // ... and this one from there on
+}
+
+// joined: a and b name the same history (one continues the other).
+func (w *world) joined(a, b string) bool {
+	w.mu.RLock()
+	defer w.mu.RUnlock()
+	return w.nameEnds[a].next == b && b != "" || w.nameEnds[b].next == a && a != ""
+}
+
+func (w *world) nameEndOf(id string) (nameEnd, bool) {
+	w.mu.RLock()
+	defer w.mu.RUnlock()
+	e, ok := w.nameEnds[id]
+	return e, ok
+}
+
+func (w *world) spansOf(id string) []span {
+	w.mu.RLock()
+	defer w.mu.RUnlock()
+	if sp := w.spans[id]; len(sp) > 0 {
+		return sp
+	}
+	return []span{{from: -1 << 62, id: id}}
+}
+
+// keyAt: the PRF key of the history of id at offset off.
+func (w *world) keyAt(id string, off int64) uint64 {
+	sp := w.spansOf(id)
+	k := aofKey(sp[0].id)
+	for _, x := range sp {
+		if off >= x.from {
+			k = aofKey(x.id)
 		}
 	}
-	return false
+	return k
+}
+
+// aofDiff: index of the first byte of got that is not the byte of id's history at pos+i, or -1.
+func (w *world) aofDiff(id string, got []byte, pos int64) int {
+	sp := w.spansOf(id)
+	for i, x := range sp {
+		lo, hi := x.from, int64(1)<<62
+		if i+1 < len(sp) {
+			hi = sp[i+1].from
+		}
+		a, b := pos, pos+int64(len(got))
+		if a < lo {
+			a = lo
+		}
+		if b > hi {
+			b = hi
+		}
+		if b <= a {
+			continue
+		}
+		if d := firstDiff(got[a-pos:b-pos], aofKey(x.id), a); d >= 0 {
+			return int(a-pos) + d
+		}
+	}
+	return -1
+}
+
+func (w *world) snapsOf(id string) []snapRef {
+	w.mu.RLock()
+	defer w.mu.RUnlock()
+	return append([]snapRef(nil), w.snaps[id]...)
+}
+
+func (w *world) snap(id string, left, size int64) (snapRef, bool) {
+	for _, x := range w.snapsOf(id) {
+		if x.Left == left && x.Size == size {
+			return x, true
+		}
+	}
+	return snapRef{}, false
+}
+
+func (w *world) hasSnap(id string, left, size int64) bool {
+	_, ok := w.snap(id, left, size)
+	return ok
+}
+
+func (w *world) minLeftOf(id string) (int64, bool) {
+	w.mu.RLock()
+	defer w.mu.RUnlock()
+	m, ok := w.minLeft[id]
+	return m, ok
 }
 
 // metaFindings: what can be judged from the declared state alone, at any instant.
@@ -175,12 +306,17 @@ func (w *world) metaFindings(s chanState, ctx string) []finding {
 	if s.RdbLeft >= 0 && s.RdbSize > 0 && !w.hasSnap(s.ID, s.RdbLeft, s.RdbSize) {
 		out = append(out, finding{Sig: "snapshot-offset-not-leaders", What: fmt.Sprintf(
 			"follower offers a snapshot (offset %d, size %d) under id %.8s, but no snapshot of that id exists at that offset (the id's snapshots: %v)",
-			s.RdbLeft, s.RdbSize, s.ID, w.snaps[s.ID]), Detail: map[string]any{"where": ctx, "follower_declares": s, "snapshots_of_id": w.snaps[s.ID]}})
+			s.RdbLeft, s.RdbSize, s.ID, w.snapsOf(s.ID)), Detail: map[string]any{"where": ctx, "follower_declares": s, "snapshots_of_id": w.snapsOf(s.ID)}})
 	}
-	if m, ok := w.minLeft[s.ID]; ok && s.Left >= 0 && s.Right >= s.Left && s.Left < m {
+	if m, ok := w.minLeftOf(s.ID); ok && s.Left >= 0 && s.Right >= s.Left && s.Left < m {
 		out = append(out, finding{Sig: "declares-below-history", What: fmt.Sprintf(
 			"follower declares [%d,%d] valid under id %.8s although nothing of that id exists below offset %d", s.Left, s.Right, s.ID, m),
 			Detail: map[string]any{"where": ctx, "follower_declares": s}})
+	}
+	if e, ok := w.nameEndOf(s.ID); ok && s.Left > e.at && (s.Right > s.Left || s.RdbSize > 0) {
+		out = append(out, finding{Sig: "two-ids-under-one-id", What: fmt.Sprintf(
+			"follower keeps [%d,%d] under id %.8s, but the source stopped using that id at offset %d (continued as %.8s): the whole cache lies in the newer id's part of the history, filed under the old id",
+			s.Left, s.Right, s.ID, e.at, e.next), Detail: map[string]any{"where": ctx, "follower_declares": s, "old_id_ends_at": e.at, "continued_as": e.next}})
 	}
 	return out
 }
@@ -239,7 +375,6 @@ func checkFollower(fc, lc syncer.Channel, fdir string, wd *world, rng *rand.Rand
 		lc = nil
 	}
 	cur := s.ID
-	key := aofKey(cur)
 	if !quiescent && fDisk {
 		if fdir != "" {
 			out = append(out, diskFilesCheck(fdir, s, wd, ctx, st)...)
@@ -291,8 +426,9 @@ func checkFollower(fc, lc syncer.Channel, fdir string, wd *world, rng *rand.Rand
 			// segment covers it): nothing of the log to compare at this offset
 		default:
 			st.bytesCompared += int64(len(res.data))
-			if i := firstDiff(res.data, key, s.Left); i >= 0 {
+			if i := wd.aofDiff(cur, res.data, s.Left); i >= 0 {
 				off := s.Left + int64(i)
+				key := wd.keyAt(cur, off)
 				d := base()
 				d["first_bad_offset"] = off
 				d["got"] = hexSnippet(res.data, i, 24)
@@ -327,8 +463,15 @@ func checkFollower(fc, lc syncer.Channel, fdir string, wd *world, rng *rand.Rand
 				}
 			}
 			// byte-identical to the leader's copy where both declare the offset
-			if lc != nil && lc.RunId() == cur && len(res.data) > 0 {
-				ll, lr := lc.GetOffsetRange(cur)
+			if lid := ""; lc != nil && len(res.data) > 0 {
+				lid = lc.RunId()
+				if lid != cur && !wd.joined(lid, cur) {
+					lid = ""
+				}
+				ll, lr := int64(-1), int64(-1)
+				if lid != "" {
+					ll, lr = lc.GetOffsetRange(lid)
+				}
 				a, b := s.Left, s.Left+int64(len(res.data))
 				if ll > a {
 					a = ll
@@ -337,7 +480,7 @@ func checkFollower(fc, lc syncer.Channel, fdir string, wd *world, rng *rand.Rand
 					b = lr
 				}
 				if ll >= 0 && b > a {
-					lres := readAt(lc, cur, a, b-a, stall)
+					lres := readAt(lc, lid, a, b-a, stall)
 					if lres.openErr == nil && lres.isAof && int64(len(lres.data)) == b-a {
 						st.leaderCompared += b - a
 						fo := int(a - s.Left)
@@ -348,7 +491,7 @@ func checkFollower(fc, lc syncer.Channel, fdir string, wd *world, rng *rand.Rand
 								d["first_bad_offset"] = a + int64(i)
 								d["leader"] = hexSnippet(lres.data, i, 24)
 								d["follower"] = hexSnippet(res.data, fo+i, 24)
-								if firstDiff(lres.data, key, a) >= 0 {
+								if wd.aofDiff(cur, lres.data, a) >= 0 {
 									out = append(out, finding{Harness: true, Sig: "leader-not-prf", What: ctx + ": the leader's own cache does not hold the fed bytes", Detail: d})
 								} else if len(out) == 0 {
 									out = append(out, finding{Sig: "differs-from-leader", What: fmt.Sprintf(
@@ -376,7 +519,7 @@ func checkFollower(fc, lc syncer.Channel, fdir string, wd *world, rng *rand.Rand
 					continue
 				}
 				st.bytesCompared += int64(len(sr.data))
-				if i := firstDiff(sr.data, key, o); i >= 0 {
+				if i := wd.aofDiff(cur, sr.data, o); i >= 0 {
 					d := base()
 					d["reader_from"] = o
 					d["first_bad_offset"] = o + int64(i)
@@ -408,9 +551,12 @@ func checkFollower(fc, lc syncer.Channel, fdir string, wd *world, rng *rand.Rand
 			// the reader is one of a newer snapshot than the sampled declaration
 		default:
 			st.bytesCompared += int64(len(res.data))
-			rk := rdbKey(cur, s.RdbLeft)
+			ref, _ := wd.snap(cur, s.RdbLeft, s.RdbSize) // unknown (offset,size): judged by metaFindings; bytes vs the id's own
+			if ref.KeyID == "" {
+				ref = snapRef{s.RdbLeft, s.RdbSize, cur}
+			}
 			d := base()
-			if i := firstDiff(res.data, rk, 0); i >= 0 {
+			if i := diffBytes(res.data, rdbBytes(ref.KeyID, ref.Left, ref.Size)); i >= 0 {
 				d["first_bad_snapshot_byte"] = i
 				d["got"] = hexSnippet(res.data, i, 24)
 				sig, what := "snapshot-bytes-differ", fmt.Sprintf("follower's snapshot at %d of id %.8s differs from the leader's at byte %d", s.RdbLeft, cur, i)
@@ -420,8 +566,8 @@ func checkFollower(fc, lc syncer.Channel, fdir string, wd *world, rng *rand.Rand
 						d["bytes_belong_to_id"] = o
 					}
 				}
-				for _, x := range wd.snaps[cur] {
-					if x.Left != s.RdbLeft && matchesAt(res.data, i, rdbKey(cur, x.Left), int64(i), 32) {
+				for _, x := range wd.snapsOf(cur) {
+					if x.Left != s.RdbLeft && matchesAt(res.data, i, rdbKey(x.KeyID, x.Left), int64(i), 32) {
 						sig, what = "snapshot-of-another-offset", fmt.Sprintf(
 							"follower offers a snapshot at offset %d of id %.8s whose bytes are the id's snapshot taken at offset %d", s.RdbLeft, cur, x.Left)
 						d["bytes_are_snapshot_of_offset"] = x.Left
@@ -460,7 +606,6 @@ func diskFilesCheck(dir string, s chanState, wd *world, ctx string, st *checkSta
 	if err != nil {
 		return nil
 	}
-	key := aofKey(s.ID)
 	base := func() map[string]any {
 		return map[string]any{"where": ctx + " (files)", "follower_declares": s}
 	}
@@ -489,7 +634,7 @@ func diskFilesCheck(dir string, s chanState, wd *world, ctx string, st *checkSta
 			}
 			seg := b[a-left : z-left]
 			st.bytesCompared += int64(len(seg))
-			if i := firstDiff(seg, key, a); i >= 0 {
+			if i := wd.aofDiff(s.ID, seg, a); i >= 0 {
 				off := a + int64(i)
 				dd := base()
 				dd["file"], dd["first_bad_offset"], dd["got"] = name, off, hexSnippet(seg, i, 24)
@@ -511,7 +656,11 @@ func diskFilesCheck(dir string, s chanState, wd *world, ctx string, st *checkSta
 				b = b[:s.RdbSize]
 			}
 			st.bytesCompared += int64(len(b))
-			if i := firstDiff(b, rdbKey(s.ID, s.RdbLeft), 0); i >= 0 {
+			ref, _ := wd.snap(s.ID, s.RdbLeft, s.RdbSize)
+			if ref.KeyID == "" {
+				ref = snapRef{s.RdbLeft, s.RdbSize, s.ID}
+			}
+			if i := diffBytes(b, rdbBytes(ref.KeyID, ref.Left, ref.Size)); i >= 0 {
 				dd := base()
 				dd["file"], dd["first_bad_snapshot_byte"], dd["got"] = name, i, hexSnippet(b, i, 24)
 				sig, what := "snapshot-bytes-differ", fmt.Sprintf("follower's snapshot at %d of id %.8s differs from the leader's at byte %d", s.RdbLeft, s.ID, i)
@@ -520,8 +669,8 @@ func diskFilesCheck(dir string, s chanState, wd *world, ctx string, st *checkSta
 						sig, what = "two-ids-under-one-id", fmt.Sprintf("follower stores under id %.8s the snapshot bytes of id %.8s", s.ID, o)
 					}
 				}
-				for _, x := range wd.snaps[s.ID] {
-					if x.Left != s.RdbLeft && matchesAt(b, i, rdbKey(s.ID, x.Left), int64(i), 32) {
+				for _, x := range wd.snapsOf(s.ID) {
+					if x.Left != s.RdbLeft && matchesAt(b, i, rdbKey(x.KeyID, x.Left), int64(i), 32) {
 						sig, what = "snapshot-of-another-offset", fmt.Sprintf(
 							"follower stores a snapshot at offset %d of id %.8s whose bytes are the id's snapshot taken at offset %d", s.RdbLeft, s.ID, x.Left)
 						dd["bytes_are_snapshot_of_offset"] = x.Left
